@@ -315,3 +315,55 @@ func c02HelperNames(ctx *core.Ctx, cc *CC, base []string, runtimeHas func(string
 		ctx.Unresolved("C02.R10", "golang generator", "no composed frugal.Write%sWithContext call found")
 	}
 }
+
+// scalarClassification — C02.R11. An enum is a scalar on the wire (an i32) but
+// (*parser.Type).IsPrimitive() is false for it. Every generator function that
+// branches on IsPrimitive() therefore also asks IsEnum — in itself or in a
+// helper of the package it calls — or it treats optional/required enum
+// fields like structs (no presence pointer, no value write). The rule is a
+// confirmed majority rule: on the pinned tree 19 of 20 such functions do; the
+// one exception is listed with its reason.
+func scalarClassification(ctx *core.Ctx, cc *CC, rule string) {
+	ctx.Rule(rule, "scalar classification accounts for enums: a generator function that branches on Type.IsPrimitive() also consults Frugal.IsEnum", 19)
+	exceptions := map[string]string{
+		"dartlang.(*Generator).generateInitValue": "initial values of the legacy (non-null-unset) Dart mode; an enum field is left null there, which does not reach the wire format",
+	}
+	gens := map[string]bool{"golang": true, "java": true, "dartlang": true, "python": true}
+	uses := func(fn *ssa.Function, short string, depth int) bool {
+		found := false
+		var walk func(g *ssa.Function, d int)
+		seen := map[*ssa.Function]bool{}
+		walk = func(g *ssa.Function, d int) {
+			if seen[g] || found {
+				return
+			}
+			seen[g] = true
+			for _, c := range ssax.Calls(g) {
+				if c.Static != nil && c.Static.Name() == short && c.Static.Pkg != nil && c.Static.Pkg.Pkg.Name() == "parser" {
+					found = true
+					return
+				}
+				if d > 0 && c.Static != nil && c.Static.Pkg == fn.Pkg && len(c.Static.Blocks) > 0 {
+					walk(c.Static, d-1)
+				}
+			}
+		}
+		walk(fn, depth)
+		return found
+	}
+	for _, fn := range cc.Fns {
+		if fn.Pkg == nil || !gens[fn.Pkg.Pkg.Name()] || fn.Parent() != nil {
+			continue
+		}
+		if !uses(fn, "IsPrimitive", 0) {
+			continue
+		}
+		name := QName(fn)
+		if why, ok := exceptions[name]; ok {
+			ctx.Discharge(rule, name+" › enums considered where primitives are", cc.FPos(fn), "listed exception: "+why)
+			continue
+		}
+		ctx.Check(uses(fn, "IsEnum", 1), rule, name+" › enums considered where primitives are", cc.FPos(fn), "IsPrimitive() and IsEnum() both consulted",
+			"the function classifies a type with IsPrimitive() alone; IsPrimitive() is false for an enum, so an enum field falls on the struct/container side of the decision (e.g. an optional enum without default stops being a presence pointer: the member whose value is 0 is never written and reads back as unset)")
+	}
+}
